@@ -32,13 +32,14 @@ crate::jser_struct! {
     pub struct Case {
         pub args: super::c06::Case,
         pub path: PathCase,
+        pub path2: PathCase,
         pub prefix: Bytes,
         pub offsets_prefix: Vec<u64>,
         pub batch: Vec<u8>,
     }
 }
 
-const NOPS: usize = 25;
+const NOPS: usize = 29;
 
 type Call<'a> = Box<dyn Fn(&mut Vec<u8>, &mut Vec<u64>) -> Result<(), jsonb::Error> + 'a>;
 
@@ -107,6 +108,13 @@ fn calls<'a>(c: &'a Case, enc: &'a Enc) -> Vec<(&'static str, Call<'a>)> {
     ] {
         v.push((name, Box::new(move |b, o| Selector::new(parse()?, mode.clone()).select(&enc.pdoc, b, o))));
     }
+    // the same entry points on a second (document, path): a predicate result followed by an
+    // array-shaped one, or the reverse, in one pair of buffers
+    let parse2 = move || jsonb::jsonpath::parse_json_path(enc.path2_text.as_bytes());
+    v.push(("get_by_path(2)", Box::new(move |b, o| jsonb::get_by_path(&enc.pdoc2, parse2()?, b, o))));
+    v.push(("get_by_path_array(2)", Box::new(move |b, o| jsonb::get_by_path_array(&enc.pdoc2, parse2()?, b, o))));
+    v.push(("Selector::select(All)(2)", Box::new(move |b, o| Selector::new(parse2()?, Mode::All).select(&enc.pdoc2, b, o))));
+    v.push(("Selector::select(Mixed)(2)", Box::new(move |b, o| Selector::new(parse2()?, Mode::Mixed).select(&enc.pdoc2, b, o))));
     assert_eq!(v.len(), NOPS);
     v
 }
@@ -120,6 +128,8 @@ struct Enc {
     kp: Vec<jsonb::keypath::KeyPath<'static>>,
     pdoc: Vec<u8>,
     path_text: String,
+    pdoc2: Vec<u8>,
+    path2_text: String,
 }
 
 pub fn check(c: &Case, obs: &mut Obs) -> Result<(), String> {
@@ -133,6 +143,8 @@ pub fn check(c: &Case, obs: &mut Obs) -> Result<(), String> {
         kp: a.path.iter().map(|k| k.to_lib()).collect(),
         pdoc: c.path.doc.enc(),
         path_text: c.path.path.clone(),
+        pdoc2: c.path2.doc.enc(),
+        path2_text: c.path2.path.clone(),
     };
     let cs = calls(c, &enc);
     let mut data = c.prefix.0.clone();
@@ -210,11 +222,12 @@ pub fn arb_case(p: TreeParams) -> BoxedStrategy<Case> {
     (
         super::c06::arb_case(p),
         arb_path_for(TreeParams::small()),
+        arb_path_for(TreeParams::small()),
         prefix,
         vec(0u64..100, 0..3),
         vec(0u8..NOPS as u8, 1..9),
     )
-        .prop_map(|(args, path, prefix, offsets_prefix, batch)| Case { args, path, prefix: Bytes(prefix), offsets_prefix, batch })
+        .prop_map(|(args, path, path2, prefix, offsets_prefix, batch)| Case { args, path, path2, prefix: Bytes(prefix), offsets_prefix, batch })
         .boxed()
 }
 
